@@ -968,6 +968,11 @@ def fam_tls_core(tier="quick"):
     L += exhaustive("tlF", ["A0"], [d, d], 1)
     L.append(prog_line("tlS2", ["A0"], [["tw 2", "tw 0", "tw 2"]]))
     L += exhaustive("tlG", ["A0"], [["tw 0 ; tw 2"], d[:3], d[:3]], 1, join=False)
+    # lazy static 2 has an initialiser with a scheduling point (yield_now): threads racing on the first access
+    z = ["lz 2", "lz 2 ; lz 2", "lz 0 ; lz 2", "st 0 1 sc ; lz 2"]
+    L += exhaustive("tlZ", ["A0"], [z, z], 1)
+    L += exhaustive("tlY", ["A0"], [["lz 2"], ["lz 2"], ["lz 2", "ld 0 sc ; lz 2"]], 1)
+    L.append(prog_line("tlS3", ["A0"], [["lz 2", "lz 2"]]))
     return L
 
 
